@@ -39,7 +39,10 @@ CMPS = [("Eq", "==", "CEq"), ("NotEq", "!=", "CNe"), ("Lt", "<", "CLt"), ("LtE",
 DENOMS = {"wei": 1, "gwei": 10**9, "ether": 10**18, "kether": 10**21, "szabo": 10**12}
 EXPS = [0, 1, 2, 3, 5, 7, 8, 15, 16, 31, 32, 63, 64, 127, 128, 129, 255, 256, 257, 1000, -1, -2]
 
-COQ_PRELUDE = """From Verif Require Import Base.PyInt C17.ArithSpec C17.ConvSpec C17.GenFold C17.FoldModel C17.ConvModel.
+COQ_PRELUDE = """From Verif Require C03.LIR C03.ArithSpec C03.ConvSpec.
+From Verif Require Import Base.PyInt C17.ArithSpec C17.ConvSpec C17.GenFold C17.FoldModel C17.ConvModel C17.MiscModel.
+Definition enc3 (o : Verif.C03.LIR.outcome) : list Z := match o with Verif.C03.LIR.Val v => [1; v] | _ => [0; 0] end.
+Definition nt (b s d : Z) : Verif.C03.ArithSpec.nty := Verif.C03.ArithSpec.Build_nty b (negb (s =? 0)) (negb (d =? 0)).
 Definition encl (r : res (list Z)) : list Z := match r with Ok l => 1 :: l | Err _ => [0] end.
 Definition enc (r : res Z) : list Z := match r with Ok v => [1; v] | Err _ => [0; 0] end.
 Definition encb (r : res bool) : list Z := match r with Ok b => [1; PyInt.b2z b] | Err _ => [0; 0] end.
@@ -159,6 +162,51 @@ def conversion_jobs(ctx, g, rnd):
                  lambda c: f"min_value({P.tname((bool(c[0]), c[1]))})", "int"))
     jobs.append(("max_value", cases, "flat_map (fun p => enc (max_value_fold (mk_ity (negb (p1 p =? 0)) (p2 p)))) " + triples(cases),
                  lambda c: f"max_value({P.tname((bool(c[0]), c[1]))})", "int"))
+    # ---- round 4: remaining AST-level folds (hand models of MiscModel.v) through the real ConstantFolder
+    D = 10**10
+    dgm = sorted({0, 1, -1, D, -D, D - 1, 15 * D // 10, -25 * D // 10, D // 3, 2**167 - 1, -(2**167), 2**100, rnd.randrange(-(2**167), 2**167),
+                  rnd.randrange(-(10**12), 10**12)})
+    cases = [(a, b) for a in dgm for b in dgm]
+    for (cls, sym, con) in CMPS:
+        jobs.append(("dec" + sym, cases, f"flat_map (fun p => encb (dec_cmp_fold {con} (p1 p) (p2 p))) " + triples(cases),
+                     lambda c, sym=sym: f"{P.dec_lit(c[0])} {sym} {P.dec_lit(c[1])}", "bool"))
+    for nm in ("min", "max"):
+        jobs.append(("dec" + nm, cases, f"flat_map (fun p => enc (dec_{nm}_fold gT (p1 p) (p2 p))) " + triples(cases),
+                     lambda c, nm=nm: f"{nm}({P.dec_lit(c[0])}, {P.dec_lit(c[1])})", "dec1"))
+    units = sorted(DENOMS)
+    cases = [(V, DENOMS[u], i) for V in dgm for i, u in enumerate(units)]
+    jobs.append(("as_wei_value:decimal", cases, "flat_map (fun p => enc (as_wei_dec_fold (p2 p) (p1 p))) " + triples(cases),
+                 lambda c: f"as_wei_value({P.dec_lit(c[0])}, '{units[c[2]]}')", "int"))
+    lst = [1, 5, 2**255, 0, 2**256 - 1]
+    cases = [(x,) for x in (0, 1, 2, 5, 6, 2**255, 2**255 + 1, 2**256 - 1, 7)]
+    jobs.append(("in", cases, f"flat_map (fun p => encb (in_fold (p1 p) {coqrun.zlist(lst)})) " + triples(cases),
+                 lambda c: f"{c[0]} in [{', '.join(map(str, lst))}]", "bool"))
+    jobs.append(("not in", cases, f"flat_map (fun p => encb (notin_fold (p1 p) {coqrun.zlist(lst)})) " + triples(cases),
+                 lambda c: f"{c[0]} not in [{', '.join(map(str, lst))}]", "bool"))
+    cases = [(n, k) for n in (0, 1, 2, 31, 32, 33, 100) for k in (0, 1, 2)]
+
+    def len_src(c):
+        n, k = c
+        if k == 0:
+            return 'len(b"' + "\\x07" * n + '")'
+        if k == 1:
+            return 'len("' + "a" * n + '")'
+        return "len(x'" + "ab" * n + "')"
+    jobs.append(("len", cases, "flat_map (fun p => enc (len_fold (repeat 0 (Z.to_nat (p1 p))))) " + triples(cases), len_src, "int"))
+
+    def real_lit_dec_hex(c):
+        m, val = c[0] % 64, c[0] // 64
+        try:
+            return "ok", _literal_decimal(_node("0x" + val.to_bytes(m, "big").hex()), BytesM_T(m), DecimalT()).value
+        except Exception as e:
+            return "err", type(e).__name__
+    cases = []
+    for m in (1, 2, 20, 21, 22, 31, 32):
+        for val in sorted({0, 1, 2 ** (8 * m - 1) - 1, 2 ** (8 * m - 1), 2 ** (8 * m) - 1, min(2 ** (8 * m) - 1, 2**167 - 1), min(2 ** (8 * m) - 1, 2**167),
+                           max(0, 2 ** (8 * m) - 2**167), max(0, 2 ** (8 * m) - 2**167 - 1), rnd.randrange(2 ** (8 * m))}):
+            cases.append((val * 64 + m,))
+    jobs.append(("convert:hex->decimal", cases, "flat_map (fun p => enc (literal_decimal_hex (p1 p mod 64) (p1 p / 64))) " + triples(cases),
+                 real_lit_dec_hex, "direct"))
     return jobs
 
 
@@ -195,8 +243,9 @@ def part_proofs(ctx):
         return {"ok": False, "gen": False, "err": str(e)}, None
     (COQ / "C17" / "GenFold.v").write_text(text)
     # models first, so that they are available for the correspondence even when a proof breaks
-    b = ctx.coq_build(["C17/ArithSpec.v", "C17/ConvSpec.v", "C17/GenFold.v", "C17/FoldModel.v", "C17/ConvModel.v",
-                        "C17/FoldAgree.v", "C17/PropsFold.v", "C17/ConvAgree.v", "C17/PropsConv.v"])
+    b = ctx.coq_build(["C17/ArithSpec.v", "C17/ConvSpec.v", "C17/GenFold.v", "C17/FoldModel.v", "C17/ConvModel.v", "C17/MiscModel.v",
+                        "C17/FoldAgree.v", "C17/PropsFold.v", "C17/ConvAgree.v", "C17/PropsConv.v", "C17/MiscAgree.v",
+                        "C17/BridgeC03.v", "C17/PropsBridge.v"])
     b["gen"] = True
     return b, info
 
@@ -290,7 +339,13 @@ def part_model_tie(ctx):
             n += 1
             if kind == "bool" and st == "ok":
                 v = int(bool(v))
-            if kind == "dec":
+            if kind == "dec1":
+                if st == "ok":
+                    v = int(v * Decimal(10**10))
+                    ok = m[0] == v
+                else:
+                    ok = m[0] is None or v == "TypeMismatch"
+            elif kind == "dec":
                 if st == "ok":
                     v = int(v * Decimal(10**10)) if v == v.to_integral_value() or True else v
                     sv = Decimal(v) / Decimal(10**10)
@@ -557,6 +612,98 @@ def make_constant_probes(ctx, types, npairs):
     return probes
 
 
+def _cty(t):
+    """Coq term of C03.ConvSpec.cty for a Vyper type name"""
+    C = "Verif.C03.ConvSpec."
+    if t == "decimal":
+        return f"({C}CNum (nt 21 1 1))"
+    if t == "bool":
+        return f"{C}CBool"
+    if t == "address":
+        return f"{C}CAddr"
+    if t.startswith("bytes"):
+        return f"({C}CBytes {int(t[5:])})"
+    sg, bits = (1, int(t[3:])) if t.startswith("int") else (0, int(t[4:]))
+    return f"({C}CNum (nt {bits // 8} {sg} 0))"
+
+
+def _lit_of(t, v):
+    if t == "decimal":
+        return P.dec_lit(v).strip("()") if v >= 0 else P.dec_lit(v)
+    if t == "bool":
+        return "True" if v else "False"
+    if t == "address":
+        from eth_utils import to_checksum_address
+        return to_checksum_address(v.to_bytes(20, "big"))
+    if t.startswith("bytes"):
+        return "0x" + v.to_bytes(int(t[5:]), "big").hex()
+    return str(v)
+
+
+def _arg_of(t, v):
+    if t == "address":
+        from eth_utils import to_checksum_address
+        return to_checksum_address(v.to_bytes(20, "big"))
+    if t.startswith("bytes"):
+        return v.to_bytes(int(t[5:]), "big")
+    if t == "bool":
+        return bool(v)
+    return v
+
+
+CONV_TABLE = [  # (Tin, Tout, values) : allowed pairs of vyper/builtins/_convert.py beyond literal -> int / decimal
+    ("uint8", "bool", [0, 1, 255]), ("int256", "bool", [-1, 0, 2**255 - 1]), ("decimal", "bool", [0, 1, 10**10, -1]),
+    ("bytes2", "bool", [0, 0x0100, 1]), ("address", "bool", [0, 2**160 - 1]),
+    ("uint8", "bytes1", [0, 255]), ("uint8", "bytes32", [7]), ("int8", "bytes1", [-1, -128, 127]), ("int128", "bytes32", [-1, 2**127 - 1]),
+    ("uint256", "bytes32", [2**256 - 1, 0]), ("decimal", "bytes32", [-(10**10), 2**167 - 1]), ("bool", "bytes1", [1, 0]),
+    ("address", "bytes20", [2**160 - 1, 1]), ("address", "bytes32", [2**159]),
+    ("bytes2", "bytes4", [0xABCD, 0]), ("bytes4", "bytes2", [0xABCD0000, 0xABCD0001, 0x00000001]), ("bytes32", "bytes1", [255 << 248, (255 << 248) + 1]),
+    ("uint160", "address", [2**160 - 1, 0]), ("uint256", "address", [2**160, 5, 2**256 - 1]), ("bytes20", "address", [2**160 - 1]),
+    ("bytes32", "address", [5, 2**160, 2**255]), ("bytes1", "address", [255]),
+    ("bytes2", "decimal", [0xFFFF, 0x7FFF, 0]), ("bytes32", "decimal", [2**255, 2**256 - 1, 2**167 - 1, 2**167, 2**256 - 2**167, 2**256 - 2**167 - 1]),
+    ("bytes21", "decimal", [2**167, 2**167 - 1, 2**168 - 1]), ("bool", "decimal", [1, 0]),
+    ("address", "uint256", [2**160 - 1]), ("address", "uint160", [2**160 - 1, 0]), ("address", "uint8", [255, 256]), ("bool", "uint8", [1]),
+    ("bool", "int8", [1]), ("bytes32", "int256", [2**256 - 1, 2**255]), ("bytes1", "uint256", [255]), ("bytes1", "int256", [255, 127]),
+    ("bytes32", "uint8", [255, 256]), ("bytes2", "int8", [0xFFFF, 0xFF7F, 0x007F, 0x0080]),
+]
+
+
+def make_round4_probes(ctx):
+    """conversions between all word-type kinds (operand as a typed constant vs as an argument), predictions from C03.conv_spec;
+    slice / concat / extract32 / `in` on literal operands (not folded by the AST folder; evaluated by the optimisers)."""
+    rnd = ctx.rng("round4")
+    probes = []
+    for tin, tout, vals in CONV_TABLE:
+        for v in vals:
+            pre = f"A{{i}}: constant({tin}) = {_lit_of(tin, v)}\n"
+            probes.append(P.Probe("conv3", None, (tin, tout, v), f"convert(A{{i}}, {tout})", [tin], f"convert(x0, {tout})", (_arg_of(tin, v),), tout, pre=pre))
+            if tin.startswith("bytes") or tin in ("bool", "address", "decimal"):  # untyped literal forms exist for these
+                probes.append(P.Probe("conv3", None, (tin, tout, v), f"convert({_lit_of(tin, v)}, {tout})", [tin], f"convert(x0, {tout})", (_arg_of(tin, v),), tout))
+    data = bytes(rnd.randrange(1, 256) for _ in range(40))
+    blit = lambda b: 'b"' + "".join(f"\\x{c:02x}" for c in b) + '"'  # noqa
+    for (st, ln) in ((0, 0), (0, 1), (1, 2), (0, 8), (7, 1), (8, 0), (5, 4), (8, 1), (0, 9), (2**255, 1)):
+        d8 = data[:8]
+        probes.append(P.Probe("slice", None, (st, ln), f"slice({blit(d8)}, {st}, {ln})", ["Bytes[8]", "uint256", "uint256"], "slice(x0, x1, x2)", (d8, st, ln), "Bytes[8]"))
+    for (a, b) in ((1, 1), (0, 3), (4, 4), (2, 0)):
+        probes.append(P.Probe("concat", None, (a, b), f"concat({blit(data[:a])}, {blit(data[8:8 + b])})", ["Bytes[4]", "Bytes[4]"], "concat(x0, x1)", (data[:a], data[8:8 + b]), "Bytes[8]"))
+    for st in (0, 1, 8, 9, 2**255):
+        probes.append(P.Probe("extract32", None, (st,), f"extract32({blit(data)}, {st})", ["Bytes[40]", "uint256"], "extract32(x0, x1)", (data, st), "bytes32"))
+        probes.append(P.Probe("extract32", None, (st,), f"extract32({blit(data)}, {st}, output_type=int128)", ["Bytes[40]", "uint256"], "extract32(x0, x1, output_type=int128)", (data, st), "int128"))
+    lst = [1, 5, 2**255]
+    for x in (0, 1, 5, 6, 2**255, 2**256 - 1):
+        probes.append(P.Probe("in", None, (x,), f"{x} in [1, 5, {2**255}]", ["uint256", "uint256[3]"], "x0 in x1", (x, lst), "bool"))
+        probes.append(P.Probe("not in", None, (x,), f"{x} not in [1, 5, {2**255}]", ["uint256", "uint256[3]"], "x0 not in x1", (x, lst), "bool"))
+    for s_ in ("", "a", "transfer(address,uint256)", "x" * 33):
+        lit = '"' + s_ + '"'
+        probes.append(P.Probe("keccak256", None, (len(s_),), f"keccak256({lit})", ["String[40]"], "keccak256(x0)", (s_,), "bytes32"))
+        probes.append(P.Probe("sha256", None, (len(s_),), f"sha256({lit})", ["String[40]"], "sha256(x0)", (s_,), "bytes32"))
+        probes.append(P.Probe("len", None, (len(s_),), f"len({lit})", ["String[40]"], "len(x0)", (s_,), "uint256"))
+    h = data[:32]
+    probes.append(P.Probe("keccak256", None, (32,), f"keccak256(0x{h.hex()})", ["bytes32"], "keccak256(x0)", (h,), "bytes32"))
+    probes.append(P.Probe("sha256", None, (32,), f"sha256(0x{h.hex()})", ["bytes32"], "sha256(x0)", (h,), "bytes32"))
+    return probes
+
+
 def model_exprs(p):
     """Coq expression giving [fold flag; fold value; spec flag; spec value] for probes with a model, else None."""
     T = p.T
@@ -568,6 +715,10 @@ def model_exprs(p):
         if p.form in ("floor", "ceil"):
             a = coqrun.hexlit(p.ops[0])
             return f"enc ({p.form}_fold {a}) ++ [1; {p.form}_spec {a}]"
+        if p.form == "conv3":
+            tin, tout, v = p.ops
+            e = f"enc3 (Verif.C03.ConvSpec.conv_spec {_cty(tin)} {_cty(tout)} {coqrun.hexlit(v)})"
+            return f"{e} ++ {e}"
         o = [coqrun.hexlit(x) for x in p.ops]
         if p.form == "convert_dec_int":
             ty = coq_ty((bool(p.ops[1]), p.ops[2]))
@@ -579,6 +730,20 @@ def model_exprs(p):
             ty = coq_ty((bool(p.ops[1]), p.ops[2]))
             bb = "true" if p.ops[0] else "false"
             return f"enc (literal_int (LBool {bb}) {ty}) ++ enco (convert_int_spec (SBool {bb}) {ty})"
+        if p.form == "conv3":
+            tin, tout, v = p.ops
+            e = f"enc3 (Verif.C03.ConvSpec.conv_spec {_cty(tin)} {_cty(tout)} {coqrun.hexlit(v)})"
+            return f"{e} ++ {e}"
+        if p.form in ("in", "not in") and p.ret == "bool" and len(p.ops) == 1:
+            f = "in_fold" if p.form == "in" else "notin_fold"
+            neg = "" if p.form == "in" else "negb "
+            l3 = f"[1; 5; {coqrun.hexlit(2**255)}]"
+            return f"encb ({f} {coqrun.hexlit(p.ops[0])} {l3}) ++ [1; PyInt.b2z ({neg}(in_spec {coqrun.hexlit(p.ops[0])} {l3}))]"
+        if p.form == "decwei":
+            a = coqrun.hexlit(p.ops[0])
+            return f"enc (typed U256 (as_wei_dec_fold {10**9} {a})) ++ enco (as_wei_dec_spec {a} {10**9})"
+        if p.form == "deccmp":
+            return None
         if p.form == "list_index":
             return f"enc (fold_index [7; {coqrun.hexlit(2**255)}; 9; 0] {o[0]}) ++ enco (index_spec [7; {coqrun.hexlit(2**255)}; 9; 0] {o[0]})"
         return None
@@ -625,6 +790,10 @@ def model_exprs(p):
 def decode(p, out):
     if out in (P.REJECT, "revert") or isinstance(out, str):
         return out
+    if p.ret == "address":
+        return int.from_bytes(out[:32], "big")
+    if p.ret.startswith("bytes") and p.ret[5:].isdigit():
+        return int.from_bytes(out[: int(p.ret[5:])], "big")
     if p.ret == "bool" or p.ret.startswith("uint"):
         return int.from_bytes(out[:32], "big") if len(out) == 32 else out.hex()
     if p.ret.startswith("int") or p.ret == "decimal":
@@ -674,7 +843,7 @@ def run_probes(ctx, probes, cfgs, tag, with_model=True):
     for i, p in enumerate(probes):
         lit_vals = {c: decode(p, v) for c, v in p.lit_res.items() if c not in ("why",)}
         rt_vals = {c: decode(p, v) for c, v in p.rt_res.items() if c not in ("why",)}
-        lv = {v for v in lit_vals.values() if v != P.REJECT}
+        lv = {v for v in lit_vals.values() if v not in (P.REJECT, "revert")}
         rv = {v for v in rt_vals.values() if v not in (P.REJECT, "revert")}
         n_eval += len(lit_vals) + len(rt_vals)
         harness = [v for v in list(lit_vals.values()) + list(rt_vals.values()) if isinstance(v, str) and v not in (P.REJECT, "revert") and (v.startswith("encode") or v.startswith("deploy"))]
@@ -712,7 +881,9 @@ def run_probes(ctx, probes, cfgs, tag, with_model=True):
                           key=f"c17:runtime-configs-disagree:{p.form}:{p.ret}")
             continue
         if "revert" in lit_vals.values():
-            lv.add("revert-of-folded-constant")
+            # the literal side compiles to code that always reverts (the run-time check is executed on the constant; e.g. legacy
+            # `convert(0xabcd0001, bytes2)`, which venom rejects at compile time): a rejection, not a value
+            ctx.corr["literal_side_runtime_reverts"] = ctx.corr.get("literal_side_runtime_reverts", 0) + 1
         if len(lv | rv) > 1 or (lv and len(lv) > 1):
             n_fail += 1
             ctx.violation("failing-input", f"folded value differs from run-time value: {p.form} on {p.ret}",
@@ -808,7 +979,7 @@ def run(ctx):
     ctx.corr.setdefault("phase_seconds", {})["coq_build"] = round(_t.time() - _ta, 1)
     _ta = _t.time()
     model_ok = build.get("gen") and (COQ / "C17" / "FoldModel.vo").exists() and (
-        build["ok"] or not any(x in build.get("file", "") for x in ("GenFold", "FoldModel", "ArithSpec", "ConvSpec", "ConvModel")))
+        build["ok"] or not any(x in build.get("file", "") for x in ("GenFold", "FoldModel", "ArithSpec", "ConvSpec", "ConvModel", "MiscModel")))
     tie_broken = []
     if model_ok:
         try:
@@ -819,7 +990,7 @@ def run(ctx):
             model_ok = False
     ctx.corr["phase_seconds"]["model_tie"] = round(_t.time() - _ta, 1)
     # paired probes: the property's own observation (independent of the Coq model)
-    probes = make_probes(ctx, types, npairs) + make_misc_probes(ctx, npairs) + make_constant_probes(ctx, (types[:5] if ctx.tier == "quick" else types) + [(True, 16)], npairs)
+    probes = make_round4_probes(ctx) + make_probes(ctx, types, npairs) + make_misc_probes(ctx, npairs) + make_constant_probes(ctx, (types[:5] if ctx.tier == "quick" else types) + [(True, 16)], npairs)
     n, nf, mism = run_probes(ctx, probes, cfgs, "q", with_model=model_ok)
     total += n
     failing += nf
